@@ -18,7 +18,7 @@ def run(c, replay):
         alphabet="' \" space newline $ ` \\ * ? ; & | ( ) < > ! # ~ { } a - = % tab (26 symbols)",
         texts="all strings of length 0-3 over the alphabet (18 279), all of length 4 over the 8 most dangerous symbols "
               "' \" space newline $ ` \\ * (4 096), 44 fixed extras (UTF-8, invalid UTF-8, CR, control characters, option-like, "
-              "3 000 quotes, 8 000 bytes)" + c.pick("", "; thorough adds all of length 4 over 14 symbols (38 416)"),
+              "3 000 quotes, 8 000 bytes)" + c.pick("", "; thorough adds all of length 4 over the full alphabet (456 976) and all of length 5 over the 8 most dangerous (32 768)"),
         worlds="nothing selected, 1 / 2 / 3 selected items (the text first, last, in the middle), execute-multi (forcePlus), "
                "--delimiter '=', text as query and prompt, initial command (no item), empty list (minItem)",
         templates="{} {1} {-1} {2..} {s1} {s2..} {..} {n} {f} {f1} \\{} x{}y {+} {+1} {+n} {+f} {+f2..} {+s-1} a{+}b {1..2} {2} "
@@ -38,12 +38,12 @@ def run(c, replay):
         layer = json.load(open(replay)).get("layer", "placeholders")
         c.run_layer(b, LAYERS.get(layer, LAYERS["placeholders"]), layer, replay=replay, deadline_s=120)
         return
-    c.run_layer(b, LAYERS["placeholders"], "placeholders", deadline_s=c.pick(70, 700),
+    c.run_layer(b, LAYERS["placeholders"], "placeholders", deadline_s=c.pick(90, 780),
                 rule="every text x 63 (world, template) pairs x {dash, bash}: expansion by replacePlaceholder, evaluated by the shell, "
-                     "argv compared word by word; temporary files read back by Go and by `cat`; non-trivial = the text contains a "
+                     "argv compared word by word; temporary files read back by Go and by the shell (read loop); non-trivial = the text contains a "
                      "character that is special to the shell; states = batches")
     c.run_layer(b, LAYERS["relaunch"], "relaunch", deadline_s=c.pick(60, 300),
                 rule="every text: escapeSingleQuote as argument and as `export V=` value through dash and bash; runTmux end to end "
                      "with a stand-in tmux: the re-launched program's argv and environment")
     c.run_layer(b, LAYERS["fish-structural"], "fish-structural", deadline_s=60,
-                rule="every text (thorough set) x 3 ways of selecting fish: QuoteEntry decoded by fish's single-quote rule")
+                rule="every text x 3 ways of selecting fish: QuoteEntry decoded by fish's single-quote rule")
